@@ -150,6 +150,9 @@ THREADFUNC_DECL TaskScheduler::TaskingThreadFunction( void* pArgs )
     // it and the scheduler may be deleted right afterwards
     SafeCallback( pTS->m_ProfilerCallbacks.threadStop, threadNum );
     AtomicAdd( &pTS->m_NumThreadsRunning, -1 );
+#ifdef RKCOMMON_VERIF
+    RKCOMMON_VERIF_POINT("ts.worker_stopped", nullptr);
+#endif
 
     return 0;
 }
